@@ -420,7 +420,8 @@ def gap_optional(a, b):
 
 WS_ATOMS = [" ", " ", " ", "\t", "\n", "\n", "\r\n", "\r", "\f", "\v", "  ", "\n  ",
             " \n", "\t \t"]
-LINE_ATOMS = [" ", " ", "\t", "\n", "\n", "\r\n", "  ", "\n  ", " \n", "\n\n"]
+LINE_ATOMS = [" ", " ", "\t", "\n", "\n", "\r\n", "  ", "\n  ", " \n", "\n\n",
+              "\f", "\v", " \f "]   # FF / VT are white space, not line ends
 COMMENT_BODIES = ["", " c ", "*", " * ", "/", " a/b ", "#", " # x ", " \"q\" ", " 'q ",
                   " line1\n line2 ", "**", " = ", " END ", " (1, 2) ", "x*y", " /x ",
                   "<u>", ";"]
